@@ -133,8 +133,8 @@ class SimFile:
             n = len(data)
             data = data.encode()
         else:
-            if isinstance(data, memoryview):
-                data = data.tobytes()
+            if not isinstance(data, (bytes, bytearray)):
+                data = memoryview(data).tobytes()      # any buffer; a real file counts bytes, not items
             n = len(data)
         bufsize = self.fs.bufsize
         if len(self.wbuf) + len(data) <= bufsize:
